@@ -19,7 +19,7 @@ import (
 func init() {
 	register(&Check{
 		ID: "C19", Level: "model_checking", QuickSecs: 170, ThoroughSecs: 1500,
-		Rule:        "Nondeterminism explorer over Go map iteration order: pigeon is built with an overlay in which every range statement over a map in packages ast and builder (type-directed rewrite, 24 sites) iterates in a harness-chosen order. Default = sorted at every dynamic site; a deviation = any other order at one dynamic site (all n! permutations for maps of <= 4 keys, the n rotations and the reversal above). Grammars: every pair of rules with bodies alt1 / alt2 over {A, B, A 'a', B 'a', A B 'z', B A 'z', \"\", 'a'} and a slice of the triples over 5 alternatives (thorough: all) that have at least one first-call cycle, with -support-left-recursion and with -support-left-recursion -optimize-grammar, plus an late-nullable choice family (R <- X / P D: X nullable only through the fixpoint, P a nullable prefix with a cached flag - rule reference, choice, sequence, action - and D closing a cycle through R only behind P; 144 grammars); optimizer family (leaf rules referenced from several places; dead rules referring to several live and dead rules) with -optimize-grammar. Every execution with <= 1 deviation is run (<= 2 deviations for grammars with <= 10 dynamic sites): the outcome (error text | per-rule nullable/leftRecursive/leader flags and optimised AST; emitted bytes once per distinct analysis outcome, after checking that no map site fires during emission) must be identical for every order. History independence: every ordered pair and triple over 6 (grammar, flags) requests sent to one fresh server process must give, for each request, the answer the same request gets alone in a fresh process. Binding: the uninstrumented pigeon binary is run repeatedly; its output must equal the sorted-order outcome, and an order dependence found by the explorer is re-observed on it.",
+		Rule:        "Nondeterminism explorer over Go map iteration order: pigeon is built with an overlay in which every range statement over a map in packages ast and builder (type-directed rewrite, 24 sites) iterates in a harness-chosen order. Default = sorted at every dynamic site; a deviation = any other order at one dynamic site (all n! permutations for maps of <= 4 keys, the n rotations and the reversal above). Grammars: every pair of rules with bodies alt1 / alt2 over {A, B, A 'a', B 'a', A B 'z', B A 'z', \"\", 'a'} and a slice of the triples over 5 alternatives (thorough: all) that have at least one first-call cycle, with -support-left-recursion and with -support-left-recursion -optimize-grammar, plus an independent components family (a mutually left-recursive pair next to directly left-recursive rules / a second pair, every rotation of the definition order); late-nullable choice family (R <- X / P D: X nullable only through the fixpoint, P a nullable prefix with a cached flag - rule reference, choice, sequence, action - and D closing a cycle through R only behind P; 144 grammars); optimizer family (leaf rules referenced from several places; dead rules referring to several live and dead rules) with -optimize-grammar. Every execution with <= 1 deviation is run (<= 2 deviations for grammars with <= 10 dynamic sites): the outcome (error text | per-rule nullable/leftRecursive/leader flags and optimised AST; emitted bytes once per distinct analysis outcome, after checking that no map site fires during emission) must be identical for every order. History independence: every ordered pair and triple over 6 (grammar, flags) requests sent to one fresh server process must give, for each request, the answer the same request gets alone in a fresh process. Binding: the uninstrumented pigeon binary is run repeatedly; its output must equal the sorted-order outcome, and an order dependence found by the explorer is re-observed on it.",
 		Assumptions: []string{"every permutation of a map's keys is a legal iteration order of the real implementation", "the rewrite keeps Go's semantics (entries deleted during the loop are skipped; entries added are not visited, which Go permits)"},
 		Run:         runC19,
 	})
@@ -284,15 +284,52 @@ func runC19(c *ShardCtx) {
 			}
 		}
 	}
+	// independent components: a mutually left-recursive pair next to one or two rules that are
+	// left-recursive on their own and to a second pair, in every definition order (what the
+	// analysis does for one component must not depend on the others or on their order)
+	{
+		pair := func(x, y string) []*peg.Rule {
+			return []*peg.Rule{{Name: x, Expr: peg.Choice(peg.Seq(peg.Ref(y), lit("a")), lit("x"))}, {Name: y, Expr: peg.Choice(peg.Seq(peg.Ref(x), lit("b")), lit("y"))}}
+		}
+		direct := func(n string) *peg.Rule {
+			return &peg.Rule{Name: n, Expr: peg.Choice(peg.Seq(peg.Ref(n), lit("c")), lit("z"))}
+		}
+		sets := [][]*peg.Rule{
+			append(pair("P", "Q"), direct("L")), append([]*peg.Rule{direct("L")}, pair("P", "Q")...), append(pair("P", "Q"), direct("A"), direct("Z")),
+			append(pair("P", "Q"), pair("A", "B")...), append(pair("A", "Q"), pair("B", "P")...), {direct("A"), direct("B"), direct("C")},
+		}
+		for _, rs := range sets {
+			for rot := 0; rot < len(rs); rot++ {
+				if c.Expired("independent components family") {
+					return
+				}
+				var rules []*peg.Rule
+				var refs []*peg.Expr
+				for k := range rs {
+					r := rs[(k+rot)%len(rs)]
+					rules = append(rules, &peg.Rule{Name: r.Name, Expr: r.Expr.Clone()})
+					refs = append(refs, peg.Ref(r.Name))
+				}
+				g := &peg.Grammar{Rules: append([]*peg.Rule{{Name: "S", Expr: peg.Choice(refs...)}}, rules...)}
+				one(g, lrSets)
+			}
+		}
+	}
 	// late-nullable choice family: R <- X / P D where X becomes nullable only through the
 	// fixpoint, P is a nullable prefix with a cached flag and D closes a cycle through R only
 	// behind P (4 rules, or 3 with an inline prefix); both alternative orders
 	{
 		opt := func(e *peg.Expr) *peg.Expr { return peg.Opt(e) }
 		xs := []func() []*peg.Rule{
-			func() []*peg.Rule { return []*peg.Rule{{Name: "X", Expr: peg.Choice(peg.Seq(peg.Ref("R"), lit("x")), lit(""))}} },
-			func() []*peg.Rule { return []*peg.Rule{{Name: "X", Expr: peg.Choice(peg.Seq(peg.Ref("R"), lit("x")), opt(lit("y")))}} },
-			func() []*peg.Rule { return []*peg.Rule{{Name: "X", Expr: peg.Choice(lit(""), peg.Seq(peg.Ref("R"), lit("x")))}} },
+			func() []*peg.Rule {
+				return []*peg.Rule{{Name: "X", Expr: peg.Choice(peg.Seq(peg.Ref("R"), lit("x")), lit(""))}}
+			},
+			func() []*peg.Rule {
+				return []*peg.Rule{{Name: "X", Expr: peg.Choice(peg.Seq(peg.Ref("R"), lit("x")), opt(lit("y")))}}
+			},
+			func() []*peg.Rule {
+				return []*peg.Rule{{Name: "X", Expr: peg.Choice(lit(""), peg.Seq(peg.Ref("R"), lit("x")))}}
+			},
 			func() []*peg.Rule {
 				return []*peg.Rule{{Name: "X", Expr: peg.Ref("Z")}, {Name: "Z", Expr: peg.Choice(peg.Seq(peg.Ref("R"), lit("x")), lit(""))}}
 			},
@@ -514,4 +551,3 @@ func flagsDesc2(r *hook.Req) string {
 	}
 	return strings.Join(p, " ")
 }
-
